@@ -20,14 +20,17 @@ missed = sum(1 for r in rows if r[5] != "caught")
 readme = """# Seeded breaking changes
 
 Written by independent sub-agents that saw only the text of one property and a scratch worktree of the repository
-(nothing from /verif); the third wave was additionally told the titles of the changes already made for its property and
-asked for something different and harder to trigger. Each change was confirmed in a fresh scratch worktree
+(nothing from /verif); from the third wave on they were additionally told the titles of the changes already made for
+their property and asked for something different (waves 3-5: harder to trigger; waves 6-7: ordinary refactorings and
+small features gone slightly wrong). Each change was confirmed in a fresh scratch worktree
 (`tools/seeded_check.py`): the demo exits 0 on the clean tree and 1 with the patch, the pinned suite keeps all 186
 baseline-stable tests green with the patch, and then the property's quick check was run against the patched tree
 (`ARTAP_ROOT=<scratch>`). Nothing here is ever applied to /repo permanently.
 
-Not kept: two changes (C03 wave 1, C09 wave 3) that de-duplicated `nondominated_truncate` on the cost vector - both are
-caught by the checks, but they make `test_surrogate_function` fail reproducibly, so they do not pass the existing tests.
+Not kept: four changes that make `test_surrogate_function` fail reproducibly and therefore do not pass the existing tests
+(two that de-duplicate `nondominated_truncate` on the cost vector, one that memoises dominance verdicts by hash, one that
+treats objective values within a relative 1e-12 as ties) - all four are caught by the checks. Where the full suite lost
+only that unseeded, load-sensitive test, it was re-run alone with the patch (`suite_note` in the meta.json).
 
 Totals: %d kept; %d caught by the version of the check that existed when the change arrived, %d caught only after the
 check was strengthened in response to a miss (or to a harness error), %d where the check was strengthened after reading
